@@ -18,7 +18,7 @@ Expected(ev, d) ==
     [] ev.kind = "save" -> SaveBlk(ev.m, ev.blk)[d]
     [] ev.kind = "from_cplx" -> FromCplx(ev.m)[d]
     [] ev.kind = "to_cplx" -> ToCplx(ev.m)[d]
-EventOk(ev) == Len(ev.obs) = Len(ev.idx) /\ \A t \in 1 .. Len(ev.idx) : ev.obs[t] = Expected(ev, ev.idx[t])
+EventOk(ev) == ev.e = "Map" /\ Len(ev.obs) = Len(ev.idx) /\ \A t \in 1 .. Len(ev.idx) : ev.obs[t] = Expected(ev, ev.idx[t])
 
 Init == l = 1 /\ bad = {}
 Next == l <= Len(Tr) /\ l' = l + 1 /\ bad' = IF EventOk(Tr[l]) THEN bad ELSE bad \cup {l}
